@@ -10,5 +10,5 @@ for c in $checks; do
   u=$(/verif/check $c quick 2>&1 | grep -E "quick:" | sed 's/.*unexplained=\([0-9]*\).*/\1/')
   res="$res $c=$u"
 done
-git -C /repo checkout -- .
+git -C /repo checkout -- .; git -C /repo clean -fdq regexml
 echo "$id-$i$res"
